@@ -438,8 +438,8 @@ def call_strategy(draw, names):
 def plan(tier):
     names = function_names()
     k = 14 if tier == 'quick' else 16
-    specs = [{'kind': 'calls', 'n': 900 if tier == 'quick' else 60000, 'k': i, 'names': names[i::k]} for i in range(k)]
-    specs += [{'kind': 'ops', 'n': 3000 if tier == 'quick' else 100000, 'k': i} for i in range(2 if tier == 'quick' else 4)]
+    specs = [{'kind': 'calls', 'n': 2500 if tier == 'quick' else 60000, 'k': i, 'names': names[i::k]} for i in range(k)]
+    specs += [{'kind': 'ops', 'n': 8000 if tier == 'quick' else 100000, 'k': i} for i in range(2 if tier == 'quick' else 4)]
     return specs
 
 
